@@ -370,6 +370,31 @@ Proof.
     + destruct (FIN g c rdt p tz ser v Hg Httl Hc Hz Ht) as [z' [Hl Hz']].
       rewrite Hl. cbn [cont done pub]. eexists. eexists. split; [reflexivity|exact Hz'].
 Qed.
+(* a full transfer whose stream stops inside the body *)
+Lemma cont_full_eof_g : forall ws one_rr g a rdt p tz ser s0,
+  msg_parse_ok_g g -> msg_parse_ok_g (group one_rr) ->
+  Forall (header_ok rdt) ws -> Forall rec_g (a ++ concat (map w_records ws)) -> zsorted tz ->
+  todo_ok tz (a ++ concat (map w_records ws)) ->
+  exists n, cont one_rr (loop (ast false rdt p tz ser s0) (g a)) ws = (Error eEOF p, n).
+Proof.
+  induction ws as [|w ws IH]; intros one_rr g a rdt p tz ser s0 Hg Hg1 Hh Hpl Hz Ht.
+  - cbn [map concat] in Hpl, Ht. rewrite app_nil_r in Hpl, Ht.
+    pose proof Hg as (_ & G2 & _). destruct (G2 a Hpl (todo_once _ _ Ht)) as (R1 & _ & _).
+    rewrite (loop_loopn _ _ _ (loopn_addrs_g _ _ _ _ _ _ _ R1 (todo_addrs_ok g tz a Hg Hpl Ht))). cbn. eauto.
+  - cbn [map concat] in Hpl, Ht. apply Forall_app in Hpl. destruct Hpl as [Ha Hrest].
+    pose proof (todo_prefix _ _ _ Ht) as Hta.
+    pose proof Hg as (_ & G2 & G3). destruct (G2 a Ha (todo_once _ _ Hta)) as (R1 & _ & _).
+    rewrite (loop_loopn _ _ _ (loopn_addrs_g _ _ _ _ _ _ _ R1 (todo_addrs_ok g tz a Hg Ha Hta))).
+    cbn [cont]. unfold ast at 1. cbn [done]. fold (ast false rdt p (addrs tz (g a)) ser s0).
+    inversion Hh as [|? ? Hw Hws]; subst.
+    rewrite drive_cons by solve_req. unfold from_wire.
+    rewrite process_running; [|apply running_ast|apply Hw|apply Hw]. cbn [m_answer].
+    assert (Hz1 : zsorted (addrs tz (g a))).
+    { eapply zsorted_zeq; [apply G3; [exact Ha|exact (todo_once _ _ Hta)|exact Hz]|apply adds_sorted, Hz]. }
+    destruct (IH one_rr (group one_rr) (w_records w) rdt p (addrs tz (g a)) ser s0 Hg1 Hg1 Hws Hrest Hz1
+                (todo_after g tz a _ Hg Ha Hz Ht)) as [n Hn].
+    rewrite Hn. eauto.
+Qed.
 End FULL.
 
 (* the body of a version: every key is a key of the version; a singleton RRset has one record *)
@@ -409,4 +434,36 @@ Proof.
               (body (v_rest v)) parse_single_ok_g parse_group_ok_g Httl Hws Hpl zsorted_nil (todo_body v Hv) Hcat)
     as [z' [n [Hn Hz']]].
   exists z', n. split; [exact Hn|]. apply full_target_g; [exact Hv|exact Hz'].
+Qed.
+
+(* "ends early" for AXFR of a version of any content: every proper prefix of the stream, in any division
+   into messages, is an error and leaves the zone alone *)
+Theorem axfr_early_end_rejected_general : forall v z0 ser ws q,
+  version_wf_g v -> Forall (header_ok tAXFR) ws -> q <> [] ->
+  concat (map w_records ws) ++ q = axfr_stream v ->
+  exists e n, inbound_xfr z0 tAXFR ser false ws = (Error e z0, n).
+Proof.
+  intros v z0 ser ws q Hv Hh Hq Hcat. pose proof Hv as (Httl & Hwf & _ & Cv).
+  destruct ws as [|w ws'].
+  { unfold inbound_xfr, xfr_run. rewrite init_axfr. cbn. eauto. }
+  inversion Hh as [|? ? Hw Hws]; subst.
+  destruct (w_records w) as [|r0 a] eqn:Hr.
+  { unfold inbound_xfr, xfr_run. rewrite init_axfr. cbn [Z.eqb tAXFR tIXFR Pos.eqb]. rewrite drive_cons by solve_req.
+    unfold process_message, from_wire. cbn [txn axfr_init incremental pub set_txn rdtype m_rcode m_question m_answer].
+    destruct Hw as [Hrc Hqq]. rewrite Hrc. cbn [Z.eqb negb]. rewrite (header_ok_question tAXFR w (conj Hrc Hqq)).
+    cbn [soa]. rewrite Hr. cbn. eauto. }
+  unfold axfr_stream in Hcat. cbn [map concat] in Hcat. rewrite Hr in Hcat.
+  cbn [app] in Hcat. inversion Hcat as [[E0 Hcat']]. subst r0. rewrite <- app_assoc in Hcat'.
+  rewrite app_assoc in Hcat'. apply app_snoc_split in Hcat'.
+  destruct Hcat' as [[c' [Hbody Hq']]|[_ Hq']]; [|congruence].
+  assert (Hpl : Forall rec_g (body (v_rest v))) by (rewrite <- zminus_nil; apply zminus_rec_g, Hwf).
+  pose proof (todo_body v Hv) as Htd.
+  rewrite Hbody in Hpl, Htd. apply Forall_app in Hpl. destruct Hpl as [Hpl _].
+  apply todo_prefix in Htd.
+  unfold inbound_xfr, xfr_run. rewrite init_axfr. cbn [Z.eqb tAXFR tIXFR Pos.eqb]. rewrite drive_cons by solve_req.
+  rewrite (first_message_axfr z0 ser w (soa_rr v) a Hw Hr) by (split; reflexivity).
+  destruct (cont_full_eof_g (fun k => look (zone_of v) k <> None) Cv
+              ws' false (map single) a tAXFR z0 [] (match ser with Some sv => sv | None => 0 end)
+              (single (soa_rr v)) parse_single_ok_g parse_group_ok_g Hws Hpl zsorted_nil Htd) as [n Hn].
+  exists eEOF, n. exact Hn.
 Qed.
